@@ -49,7 +49,15 @@ mod imp {
         SALTS.lock().unwrap_or_else(|e| e.into_inner()).iter().cloned().collect()
     }
     fn queue(n: usize, tag: usize) -> Vec<String> {
-        (0..n).map(|i| crate::codec::b64e(format!("salt{tag:03}-{i:04}xxxx").as_bytes())).collect()
+        // the property quantifies over all salt queues: spec-style salts, short ones, ones that are not base64url, long ones
+        (0..n)
+            .map(|i| match (i + tag) % 4 {
+                0 => crate::codec::b64e(format!("salt{tag:03}-{i:04}xxxx").as_bytes()),
+                1 => format!("salt-{tag}-{i}"),
+                2 => format!("s{i}!{tag}"),
+                _ => format!("{}-{tag}-{i}", "longsalt".repeat(6)),
+            })
+            .collect()
     }
 
     /// trigger: does any name or string value contain one of the separators the spacing rewrite looks for
